@@ -37,7 +37,9 @@ class Mesh:
 
 
 class RHSStub:
-    def __init__(self, B, n, neq=1, prefix='K', dt_prefix='dt', dt_array=False, contract=None, fn=None, kbound=None):
+    def __init__(self, B, n, neq=1, prefix='K', dt_prefix='dt', dt_array=False, contract=None, fn=None, kbound=None, reuse=False):
+        self.reuse = reuse      # return the SAME array objects at every call (a right-hand side writing into work arrays allocated once)
+        self._buf = None
         self.B = B
         self.nelem = n
         self.neq = neq
@@ -62,6 +64,13 @@ class RHSStub:
         if self.contract is not None:
             self.contract(j, f.time, data, r)
         self.results.append([x.copy() for x in r])
+        if self.reuse:
+            if self._buf is None:
+                self._buf = [x.copy() for x in r]
+            else:
+                for q in range(len(r)):
+                    self._buf[q][...] = r[q]
+            return self._buf
         return r
 
     def calc_timestep(self, f, cond):
